@@ -338,7 +338,13 @@ func ClientRun(osenv *rsyncos.Env, opts *rsyncopts.Options, conn io.ReadWriter, 
 			}
 		}
 
-		stats, err := st.Do(crd, cwr, FileSystemRoot, paths, nil)
+		// The sender applies the client's own filter rules.
+		exclusionList, err := sender.ParseFilterList(opts.FilterRules())
+		if err != nil {
+			return nil, err
+		}
+
+		stats, err := st.Do(crd, cwr, FileSystemRoot, paths, exclusionList)
 		if err != nil {
 			return nil, err
 		}
